@@ -94,12 +94,30 @@ func patchFile(path string, off int64, data []byte, truncateTo int64) {
 // outcome (loss, garbage, re-delivery, wedged queue) then only depends on which
 // garbage offset the torn bytes happen to spell.
 func (c *crashCase) judge(img, class, point string, exp crashExpect, extra map[string]interface{}) {
+	c.judgeF(img, class, point, exp, extra, "", nil)
+}
+
+// judgeF: for torn images tornFile names the segment file that was patched and
+// headOffsets the value(s) its footer legitimately holds (the live head
+// offset); the footer counts as destroyed when the file ends in anything else.
+func (c *crashCase) judgeF(img, class, point string, exp crashExpect, extra map[string]interface{}, tornFile string, headOffsets []uint64) {
 	defer os.RemoveAll(img)
 	c.images++
 	r.Eval(1)
 	r.Count("crash_images_checked", 1)
 	r.Count("crash_images_"+class, 1)
 	footersOK := allFootersValid(img)
+	if tornFile != "" {
+		footersOK = false
+		if b, err := os.ReadFile(filepath.Join(img, tornFile)); err == nil && len(b) >= 8 {
+			v := binary.BigEndian.Uint64(b[len(b)-8:])
+			for _, h := range headOffsets {
+				if v == h {
+					footersOK = allFootersValid(img)
+				}
+			}
+		}
+	}
 	if !footersOK {
 		r.Count("crash_images_with_unusable_footer", 1)
 	}
@@ -303,7 +321,8 @@ func (c *crashCase) hook(name string, args []interface{}) {
 			}
 			img := c.snapshot()
 			patchFile(filepath.Join(img, base), off, data[:j], -1)
-			c.judge(img, class, fmt.Sprintf("flush.torn:%s@%d+%d/%d", base, off, j, L), exp, map[string]interface{}{"torn_bytes_written": j, "pending_write_len": L, "write_offset": off})
+			c.judgeF(img, class, fmt.Sprintf("flush.torn:%s@%d+%d/%d", base, off, j, L), exp, map[string]interface{}{"torn_bytes_written": j, "pending_write_len": L, "write_offset": off},
+				base, []uint64{binary.BigEndian.Uint64(data[L-8:])})
 		}
 		c.lastFooter[path] = binary.BigEndian.Uint64(data[L-8:])
 	case "hh.flush.written", "hh.flush.synced":
@@ -335,7 +354,8 @@ func (c *crashCase) hook(name string, args []interface{}) {
 					}
 					img := c.snapshot()
 					patchFile(filepath.Join(img, base), st.Size()-8, mix, -1)
-					c.judge(img, "torn-advance-footer", fmt.Sprintf("advance.torn:%s %d->%d +%d/8", base, old, newpos, j), exp, map[string]interface{}{"torn_bytes_written": j, "old_head_offset": old, "new_head_offset": newpos})
+					c.judgeF(img, "torn-advance-footer", fmt.Sprintf("advance.torn:%s %d->%d +%d/8", base, old, newpos, j), exp, map[string]interface{}{"torn_bytes_written": j, "old_head_offset": old, "new_head_offset": newpos},
+						base, []uint64{old, newpos})
 				}
 			}
 		}
